@@ -1351,4 +1351,70 @@ theorem charged_inh (p c : Frame) : (charged p c).inhCpu = p.inhCpu ∧ (charged
 theorem popped_inh (f : Frame) : f.popped.inhCpu = f.inhCpu ∧ f.popped.inhMem = f.inhMem := by
   unfold Frame.popped; split <;> exact ⟨rfl, rfl⟩
 
+/-! ### lattice laws of the limit merge (0 = unlimited is the top element) -/
+
+theorem pick_glb (a b x : BitVec 64) (ha : limLe x a) (hb : limLe x b) :
+    limLe x (if smallerLimit b a then b else a) := by
+  split <;> assumption
+
+theorem pick_comm (a b : BitVec 64) :
+    (if smallerLimit b a then b else a) = (if smallerLimit a b then a else b) := by
+  by_cases h1 : smallerLimit b a = true <;> by_cases h2 : smallerLimit a b = true <;>
+    simp only [h1, h2, if_true, if_false, Bool.false_eq_true] <;>
+    (have h1' := h1; have h2' := h2
+     rw [smallerLimit_iff] at h1' h2'
+     apply BitVec.eq_of_toNat_eq
+     have e0 : ∀ z : BitVec 64, z = 0#64 ↔ z.toNat = 0 := fun z => by
+       constructor
+       · intro h; subst h; rfl
+       · intro h; exact BitVec.eq_of_toNat_eq (by simpa using h)
+     simp only [ne_eq, e0] at h1' h2'
+     omega)
+
+theorem below_pick_iff (v a b : BitVec 64) :
+    below v (if smallerLimit b a then b else a) ↔ below v a ∧ below v b := by
+  have e0 : ∀ z : BitVec 64, z = 0#64 ↔ z.toNat = 0 := fun z => by
+    constructor
+    · intro h; subst h; rfl
+    · intro h; exact BitVec.eq_of_toNat_eq (by simpa using h)
+  by_cases h1 : smallerLimit b a = true
+  · have h1' := (smallerLimit_iff b a).mp h1
+    simp only [h1, if_true, below, ne_eq, e0] at *
+    omega
+  · have h1' : ¬ _ := fun c => h1 ((smallerLimit_iff b a).mpr c)
+    simp only [h1, if_false, below, ne_eq, e0, Bool.false_eq_true] at *
+    omega
+
+theorem pick_idem (a : BitVec 64) : (if smallerLimit a a then a else a) = a := by split <;> rfl
+
+theorem pick_assoc (a b c : BitVec 64) :
+    (if smallerLimit c (if smallerLimit b a then b else a) then c else (if smallerLimit b a then b else a)) =
+    (if smallerLimit (if smallerLimit c b then c else b) a then (if smallerLimit c b then c else b) else a) := by
+  have e0 : ∀ z : BitVec 64, z = 0#64 ↔ z.toNat = 0 := fun z => by
+    constructor
+    · intro h; subst h; rfl
+    · intro h; exact BitVec.eq_of_toNat_eq (by simpa using h)
+  have sl : ∀ n m : BitVec 64, smallerLimit n m = true ↔ (n.toNat ≠ 0 ∧ (m.toNat = 0 ∨ n.toNat < m.toNat)) := by
+    intro n m; rw [smallerLimit_iff]; simp only [ne_eq, e0]
+  by_cases h1 : smallerLimit b a = true <;> by_cases h2 : smallerLimit c b = true <;>
+    simp only [h1, h2, if_true, if_false, Bool.false_eq_true] <;>
+    by_cases h3 : smallerLimit c a = true <;>
+    simp only [h3, if_true, if_false, Bool.false_eq_true] <;>
+    (apply BitVec.eq_of_toNat_eq
+     simp only [Bool.not_eq_true] at *
+     first
+     | rfl
+     | (exfalso
+        have H1 := sl b a; have H2 := sl c b; have H3 := sl c a
+        simp only [h1, h2, h3, Bool.false_eq_true, true_iff, false_iff] at H1 H2 H3
+        omega)
+     | (have H1 := sl b a; have H2 := sl c b; have H3 := sl c a
+        simp only [h1, h2, h3, Bool.false_eq_true, true_iff, false_iff] at H1 H2 H3
+        omega))
+
+theorem res_ext (a b : RuntimeResources) (h1 : a.Cpu = b.Cpu) (h2 : a.Memory = b.Memory)
+    (h3 : a.Millis = b.Millis) : a = b := by
+  cases a; cases b; simp_all
+
+
 end GoluaVerif.Proofs.Ctx
